@@ -163,7 +163,15 @@ func runFree(seed int64, dir string, runs int, res *vh.Result) {
 			}
 		}()
 		wg.Wait()
-		time.Sleep(5 * time.Millisecond)
+		// the background goroutines keep going until the truncator ran a few times after the last commit
+		for dl := time.Now().Add(stepDeadline); time.Now().Before(dl) && !w.hung; time.Sleep(time.Millisecond) {
+			w.mu.Lock()
+			n := len(w.truncs)
+			w.mu.Unlock()
+			if n >= 4 {
+				break
+			}
+		}
 		atomic.StoreInt32(&stop, 1)
 		bg.Wait()
 		if w.hung {
